@@ -85,8 +85,8 @@ def rule_utf8_tables(ctx):
         if not t or t["k"] != "IfStmt":
             continue
         c = tree(e, t.get("lc", t.get("c")))
-        if c[0] == "<" and c[1] == ("var", "ch") and c[2][0] == "int":
-            T = c[2][1]
+        if c[0] in ("<", "<=") and c[1] == ("var", "ch") and c[2][0] == "int":
+            T = c[2][1] + (1 if c[0] == "<=" else 0)       # `ch <= c` is `ch < c + 1`
             pushes = [n for n in e.blocks[e.succ[b][0]]["n"] if n["k"] == "call" and (n.get("c") or "").endswith("::push_back")]
             enc.append((T, [byte_field(tree(e, p["a"][0])) for p in pushes], b))
     r.require(len(enc) >= 6, "encode_utf8: %d `ch < T` branches" % len(enc))
